@@ -11646,6 +11646,7 @@ class ExceptionBlockStatementSegment(BaseSegment):
                 ),
             ),
         ),
+        Dedent,
     )
 
 
